@@ -88,7 +88,8 @@ type ClientOpt struct {
 	Opts      []jsonrpc.Option
 	RevIdent  string // non-empty: attach a reverse handler with this identity
 	RevSvc    *svc.Svc
-	Direct    bool // bypass the proxy
+	RevAlias  map[string]string // client-side handler aliases; nil = {"R.AliasIdent": "R.Ident"}
+	Direct    bool              // bypass the proxy
 	Ctx       context.Context
 }
 
@@ -107,9 +108,14 @@ func (e *Env) NewClient(o ClientOpt) (*Client, error) {
 		if c.RevSvc == nil {
 			c.RevSvc = svc.New()
 		}
-		opts = append(opts,
-			jsonrpc.WithClientHandler("R", &svc.RevHandler{Identity: o.RevIdent, S: c.RevSvc, Fwd: &c.Client}),
-			jsonrpc.WithClientHandlerAlias("R.AliasIdent", "R.Ident"))
+		opts = append(opts, jsonrpc.WithClientHandler("R", &svc.RevHandler{Identity: o.RevIdent, S: c.RevSvc, Fwd: &c.Client}))
+		al := o.RevAlias
+		if al == nil {
+			al = map[string]string{"R.AliasIdent": "R.Ident"}
+		}
+		for k, v := range al {
+			opts = append(opts, jsonrpc.WithClientHandlerAlias(k, v))
+		}
 	}
 	tr := o.Transport
 	if tr == "" {
